@@ -13,7 +13,7 @@ labelled streams (`gen_finding`), one known defect shape each:
                  field), nested-leaf (struct port with a nested-struct / list field in output direction), struct-wire (struct
                  wire written by field and read whole or vice versa), comp-array (list of sub-components with a struct input)
    F17 (verilog) for loop with a negative step that does not land on the bound (unsigned loop variable wraps)
-regression streams (`gen_fixed`): the shapes of defects repaired by fix: commits (F15, F16, F16b, F18, F19); expected clean.
+regression streams (`gen_fixed`): the shapes of defects repaired by fix: commits (F15, F16, F16b, F18, F19, F20, F21); expected clean.
 """
 import math
 
@@ -135,6 +135,9 @@ class ExprGen:
     """expression text of width exactly w built from one readable source; returns (text, kind)"""
     rng, sc = self.rng, self.scope
     r = rng.random()
+    lv = [name for name, mx in sc.loopvars if mx < (1 << w)]
+    if lv and r < 0.06:
+      return f'Bits{w}({rng.choice(lv)})', 'other'            # BitsN(loop variable)
     if r < 0.10 or not sc.refs:
       return f'Bits{w}({self.literal(w)})', 'const'
     if r < 0.22 and sc.arrays:
@@ -249,6 +252,9 @@ class ExprGen:
       e, kind = self.expr(cw, depth - 1)
       if rng.random() < 0.5 and self.sext_ok(kind): return f'sext({e}, {w})', 'ext'
       return f'zext({e}, {w})', 'ext'
+    if rng.random() < 0.3 and self.opts.get('be') != 'yosys':      # yosys: finding F22 (cast of a compound expression loses its parentheses)
+      e, _ = self.nc(w, depth - 1)
+      return f'Bits{w}({e})', 'other'                          # BitsN( expression of the same width )
     cw = w + rng.choice([1, 3, 8])
     e, kind = self.expr(cw, depth - 1)
     return f'trunc({e}, {w})', 'other'
@@ -371,7 +377,7 @@ class DesignGen:
         wires.append(Sig(f'w{i}', 'wire', ('b', c.W())))
     # ---- interfaces (top-level or not): ports with mangled names
     if rng.random() < self.opts.get('ifc', 0.25):
-      n = rng.choice([None, None, 2, (2, 3) if self.be == 'verilog' else 2])      # yosys: 2-D interface lists are finding F20
+      n = rng.choice([None, None, 2, (2, 3)])
       W = rng.choice([4, 8])
       iname = 'ifc'
       c.ifcs.append((iname, W, n))
@@ -430,9 +436,8 @@ class DesignGen:
       n = None
       # a list of identical sub-components (struct-free in yosys: finding F10d)
       has_struct_in = any(s.T[0] == 's' for s in ch.ins)
-      has_2d_port = any(len(dims_of(x.n)) > 1 for x in ch.ins + ch.outs)      # verilog: finding F21
-      if rng.random() < 0.25 and not (yos and has_struct_in) and not ch.ifcs and not (not yos and has_2d_port):
-        n = rng.choice([2, 2, 2, (2, 2) if not yos else 2, (2, 3) if not yos else 2])      # yosys: 2-D lists of sub-components are finding F20
+      if rng.random() < 0.25 and not (yos and has_struct_in) and not ch.ifcs:
+        n = rng.choice([2, 2, 2, (2, 2), (2, 3)])
         self.features.add('comp-array' + ('' if isinstance(n, int) else '-2d'))
       c.children.append((f'c{k}', ch, n))
       def inst():
@@ -794,17 +799,18 @@ F19 = 'F19-yosys-trunc-unmangled'
 F7 = 'F7-same-class-name-different-bodies'
 F20 = 'F20-yosys-2d-list-of-interfaces-or-subcomponents-transposed'
 F21 = 'F21-verilog-2d-port-list-of-listed-subcomponent'
+F22 = 'F22-yosys-cast-of-compound-unparenthesised'
 
 FINDING_STREAMS = {
   # id -> (backends, expected violation kinds)
   F10: (('yosys',), ('multi-driver', 'undriven', 'output-mismatch')),
   F17: (('verilog',), ('loop-overrun', 'output-mismatch')),
-  F20: (('yosys',), ('multi-driver', 'undriven', 'output-mismatch', 'syntax-invalid')),
-  F21: (('verilog',), ('multi-driver', 'undriven', 'output-mismatch', 'syntax-invalid')),
+  F22: (('yosys',), ('output-mismatch',)),
 }
 FIXED_STREAMS = {
   # shapes of repaired defects: ordinary clean cases now
   F15: ('yosys', 'verilog'), F16: ('verilog', 'yosys'), F16B: ('verilog', 'yosys'), F18: ('verilog', 'yosys'), F19: ('yosys', 'verilog'),
+  F20: ('yosys', 'verilog'), F21: ('verilog', 'yosys'),
 }
 
 def _hdr(): return ['from pymtl3 import *', '']
@@ -928,6 +934,11 @@ def gen_finding(rng, be, fid):
           '    s.c = [ Sub(), Sub() ]', f'    for i in range({a}):', f'      for j in range({b}):', '        s.c[0].in0[i][j] //= 0',
           '    @update', '    def up():', f'      for i in range({a}):', f'        for j in range({b}):', '          s.c[1].in0[i][j] @= s.x',
           '    s.o[0] //= s.c[0].out', '    s.o[1] //= s.c[1].out']
+  elif fid == F22:
+    w = max(w, 2)
+    op1, op2 = rng.choice([('^', '|'), ('&', '|'), ('&', '^'), ('-', '+'), ('^', '|')])
+    L += ['class Top( Component ):', '  def construct( s ):', f'    s.a = InPort( Bits{w} )', f'    s.b = InPort( Bits{w} )', f'    s.o = OutPort( Bits{w} )',
+          '    @update', '    def up():', f'      s.o @= s.a {op1} Bits{w}( s.b {op2} {rng.randint(1, (1 << w) - 1)} )']
   elif fid == F7:
     k = rng.sample(range(1, 1 << max(w, 2)), 2)
     w = max(w, 2)
